@@ -237,3 +237,25 @@ fn auth_challenge_without_authentication_data_is_accepted() {
         other => panic!("AUTH with a method and no data is well-formed, got {:?}", other.map(|_| ()).map_err(|e| e)),
     }
 }
+
+#[test]
+fn user_property_lookups_agree_with_the_pairs_in_the_packet() {
+    // keys that differ only in case, one that is a prefix of another, repeated keys, empty key/value, multi-byte UTF-8
+    let pairs: Vec<(&str, &str)> = vec![("Key", "a"), ("key", "b"), ("ke", "c"), ("key", "d"), ("", "e"), ("k\u{e9}y", "\u{20ac}"), ("KEY", "")];
+    let mut props = vec![];
+    for (k, v) in pairs.iter() {
+        props.extend(p_pair(k, v));
+    }
+    let r = connect_with(connack(0, &props)).expect("well-formed CONNACK is accepted");
+    let rsp = match r { Either::Left(rsp) => rsp, Either::Right(_) => panic!("CONNACK expected") };
+    let up = rsp.user_properties();
+    assert_eq!(up.len(), pairs.len());
+    assert_eq!(up.iter().collect::<Vec<_>>(), pairs);
+    assert_eq!(up.keys().collect::<Vec<_>>(), pairs.iter().map(|p| p.0).collect::<Vec<_>>());
+    assert_eq!(up.values().collect::<Vec<_>>(), pairs.iter().map(|p| p.1).collect::<Vec<_>>());
+    for probe in ["Key", "key", "KEY", "ke", "k", "", "k\u{e9}y", "key ", "absent"] {
+        let want: Vec<&str> = pairs.iter().filter(|p| p.0 == probe).map(|p| p.1).collect();
+        assert_eq!(up.get(probe).collect::<Vec<_>>(), want, "get({:?})", probe);
+        assert_eq!(up.contains_key(probe), !want.is_empty(), "contains_key({:?})", probe);
+    }
+}
